@@ -50,7 +50,7 @@ func (world) Rule(p string) string {
 			"2^20, 2^32-1, 2^63-1, 2^64-1, an over-long and a non-minimal varint; and well-formed protobufs whose inner SCALE blobs (header, body extrinsics, justification " +
 			"flags, from-block fields) are corrupted with the same schedule. The REAL decoder of the protocol runs on every mutant. Oracle: message or error (never neither); " +
 			"no panic; allocation delta <= 256*len+128KiB; if it decodes, encode(decode(x)) must decode again and re-encode to the same bytes. No wall-time bound is asserted; " +
-			"a decode that does not return within 90 s kills the worker (TROUBLE with the input). Non-trivial = at least one mutant executed."
+			"a decode that does not return within 90 s kills the worker (TROUBLE with the input). Non-trivial = at least one mutant executed. Scale phase (one run in four, protocols with a repeated part): a large valid message of 1.5k-25k tiny elements and four damaged copies of it under the linear bound with constant 4096, plus a growth test - the same message with twice the elements may cost at most three times the allocation (runtime.MemStats.TotalAlloc)."
 	case "C07":
 		return "one run = one node encoding: harvested from a real in-memory trie built from tape keys/values (V0 or V1 layout; node.Encode of every node, proof nodes from " +
 			"proof.Generate over the database written by WriteDirty - a proof entry that is byte-equal to a V1 value longer than 32 bytes of that trie is the raw hashed value " +
